@@ -791,8 +791,9 @@ pub fn spec(id: &str, variant: &str, cancelable: bool, thorough: bool) -> Option
                     (K::AddEventL, 8),
                     (K::AddEventH, 4),
                     (K::Flush, 5),
-                    (K::CollectorStart, 2),
-                    (K::PushChildSpans, 2),
+                    (K::CollectorStart, 7),
+                    (K::PushChildSpans, 8),
+                    (K::ToSpanRecords, 2),
                 ])
             }),
             opts: ExecOpts {
